@@ -897,7 +897,60 @@ def rule_codec(prog):
             "length taken from %s (String::len = bytes); formatted (%s)" % (length_src, fmt_args))
     bad = [n for n in hir.nodes(enc["body"], "MethodCall") if n["m"] in ("chars", "encode_utf16", "char_indices")]
     out.add("LSCodec::encode", "no character-count based length", not bad, c.loc(enc["sp"]), "")
+    # sizes in decode are unsigned: a difference `a - b` is only taken where a guard on the very same two values (`b < a`, `b <= a`,
+    # early return on `a < b`) has established its sign.  Which bytes the buffer holds when decode runs is decided by the chunking
+    # of the client's writes; a difference whose sign depends on it panics (debug) or wraps (release) for some split of the stream.
+    n_sub = 0
+    for bn, parents in hir.walk(dec["body"]):
+        if bn.get("k") not in ("Binary", "AssignOp") or bn.get("op") not in ("-", "-="):
+            continue
+        a_, b_ = place(hir.strip_ref(bn["l"])) or _call_sig(bn["l"]), place(hir.strip_ref(bn["r"])) or _call_sig(bn["r"])
+        if hir.lit_value(hir.strip(bn["r"])) is not None or a_ is None or b_ is None:
+            continue
+
+        def orders(cond, negated):
+            """does `cond` (taken, or not taken when negated) establish b <= a ?"""
+            for cb in hir.nodes(cond, "Binary"):
+                l_, r_ = place(hir.strip_ref(cb["l"])) or _call_sig(cb["l"]), place(hir.strip_ref(cb["r"])) or _call_sig(cb["r"])
+                op = cb["op"]
+                if negated:
+                    op = {"<": ">=", "<=": ">", ">": "<=", ">=": "<"}.get(op)
+                if (l_, r_) == (b_, a_) and op in ("<", "<="):
+                    return True
+                if (l_, r_) == (a_, b_) and op in (">", ">="):
+                    return True
+            return False
+        guarded = False
+        chain = list(parents) + [bn]
+        for i_, pr_ in enumerate(chain[:-1]):
+            if pr_.get("k") == "If":
+                if chain[i_ + 1] is pr_.get("then") and orders(pr_["cond"], False):
+                    guarded = True
+                if pr_.get("else") is not None and chain[i_ + 1] is pr_["else"] and orders(pr_["cond"], True):
+                    guarded = True
+            if pr_.get("k") == "Block":
+                for st_ in pr_["stmts"]:
+                    if st_ is chain[i_ + 1]:
+                        break
+                    inner_ = hir.stmt_inner(st_) or {}
+                    if inner_.get("k") == "If" and any(True for _ in hir.nodes(inner_["then"], "Ret")) and orders(inner_["cond"], True):
+                        guarded = True
+        n_sub += 1
+        out.add("LSCodec::decode", "an unsigned difference is taken only behind a guard on its two operands", guarded, c.loc(bn["sp"]),
+                "`%s - %s` with no dominating comparison of exactly these two values: for some chunking of the input the buffer holds more than "
+                "the subtrahend's bound and the subtraction underflows - the reader task panics (or reserves an absurd capacity) and every "
+                "later request stays unanswered" % ((a_ or "?").split("#")[0], (b_ or "?").split("#")[0]), ("sub",))
     return out
+
+
+def _call_sig(e):
+    """`x.len()` -> 'x.len()' (a stable name for a method result without arguments, used to compare operands)"""
+    e = hir.strip_ref(e)
+    if e.get("k") == "MethodCall" and not e["args"]:
+        r = place(hir.strip_ref(e["recv"]))
+        if r:
+            return "%s.%s()" % (r, e["m"])
+    return None
 
 
 # ------------------------------------------------------------------ BROKER / DOC-KEY
@@ -1074,6 +1127,22 @@ def rule_broker(prog):
     g = has(arms["GetInfo"], "get")
     s = has(arms["GetInfo"], "send")
     out.add("document::broker", "GetInfo answers from the stored document", bool(g) and bool(s), c.loc(arms["GetInfo"]["sp"]), "", ("state",))
+    # ... on every path: the handler on the other end of the oneshot channel awaits the answer with `?`; an arm that can end without
+    # sending (unknown document -> sender dropped) turns "document not open" into an error that ends the reader loop
+    def ev(n_):
+        if n_.get("k") == "MethodCall" and n_["m"] == "send" and "oneshot" in (
+                c.tstr(hir.strip(n_["recv"])["t"]) + "".join(c.tstr(a_["to"]) for a_ in (hir.strip(n_["recv"]).get("adj") or []))):
+            return ("answer", n_)
+        return None
+    try:
+        ps_ = flow.paths(arms["GetInfo"]["body"], ev)
+        silent = [p_ for p_ in ps_ if not any(e_[0] == "answer" for e_ in p_) and not (p_ and p_[-1][0] in ("panic",))]
+        out.add("document::broker", "GetInfo answers on every path (also for a document that is not open)", not silent and bool(ps_),
+                c.loc(arms["GetInfo"]["sp"]), "%d of %d paths through the GetInfo arm end without sending on the oneshot channel: the waiting "
+                "handler gets a receive error, which `?` turns into the end of the reader loop - this request and all later ones stay "
+                "unanswered" % (len(silent), len(ps_)), ("state", "answer"))
+    except OverflowError:
+        out.add("document::broker", "GetInfo answers on every path (also for a document that is not open)", None, c.loc(arms["GetInfo"]["sp"]), "", ("state", "answer"))
     # handlers are awaited inline: covered by WHO-MAY spawn. All document requests travel through doctx.send
     return out
 
@@ -1102,6 +1171,28 @@ def rule_text_sync(prog):
     out.add("document::to_text_changes", "no content change is discarded", bad is None, c.loc(bad["sp"]) if bad else c.loc(b["sp"]),
             "a change without `range` (full-text replacement) is silently dropped by `%s`; the server's text then "
             "diverges from the client's" % (bad["m"] if bad else ""), ("nodrop",))
+    # ... and nobody on the way from the notification to that function prunes or reorders the list either: no pruning / reordering
+    # method is applied to a value of type Vec<TextDocumentContentChangeEvent> anywhere in the server
+    PRUNE = ("retain", "retain_mut", "dedup", "dedup_by", "dedup_by_key", "truncate", "drain", "pop", "remove", "swap_remove", "clear",
+             "sort", "sort_by", "sort_by_key", "sort_unstable", "sort_unstable_by", "sort_unstable_by_key", "reverse", "split_off", "rotate_left",
+             "rotate_right", "swap")
+    pruned = None
+    n_lists = 0
+    for fb in c.bodies:
+        if "/tests" in c.file_of(fb["sp"]):
+            continue
+        for mc in hir.nodes(fb["body"], "MethodCall"):
+            t_ = c.tstr(hir.strip(mc["recv"])["t"]) + "".join(c.tstr(a_["to"]) for a_ in (hir.strip(mc["recv"]).get("adj") or []))
+            if "TextDocumentContentChangeEvent" not in t_:
+                continue
+            n_lists += 1
+            if mc["m"] in PRUNE:
+                pruned = (fb, mc)
+    out.add("document", "the list of content changes is neither pruned nor reordered on its way to the conversion", pruned is None,
+            c.loc(pruned[1]["sp"]) if pruned else c.loc(b["sp"]),
+            "`%s` on the content changes of a didChange notification (in `%s`): a change that looks like a no-op by one criterion (empty text) "
+            "can be the one that empties the document; every later position is then interpreted against the wrong text"
+            % (pruned[1]["m"] if pruned else "", pruned[0]["d"] if pruned else ""), ("nodrop", "batch"))
     # BATCH: replace_range on the temp text with the converted range; ranges converted against the temp text
     temp = None
     for n in hir.nodes(b["body"], "Let"):
@@ -1376,6 +1467,17 @@ def rule_text_sync(prog):
                                 pl = place(other["es"][1])
                                 if pl:
                                     colvars.add(pl)
+            # a local compared with `<position>.character` counts columns too
+            for cmpn in hir.nodes(bb["body"], "Binary"):
+                if cmpn["op"] not in ("==", "!=", "<", "<=", ">", ">="):
+                    continue
+                for me_, other_ in ((cmpn["l"], cmpn["r"]), (cmpn["r"], cmpn["l"])):
+                    o_ = hir.strip_ref(other_)
+                    if o_.get("k") == "Field" and o_["name"] == "character" and "Position" in (
+                            c.tstr(o_["base"]["t"]) + "".join(c.tstr(a_["to"]) for a_ in (o_["base"].get("adj") or []))):
+                        pl = place(hir.strip_ref(me_))
+                        if pl and "." not in pl:
+                            colvars.add(pl)
             for n in hir.nodes(bb["body"], "AssignOp"):
                 if n["op"] != "+=":
                     continue
@@ -1384,7 +1486,35 @@ def rule_text_sync(prog):
                 if place(n["l"]) in colvars or is_col_field:
                     incs_all.append((bb, n))
         if not incs_all:
-            out.add("document::" + fn, "column counter found", None, c.loc(fb["sp"]), "", ("utf16",))
+            # no running counter: the column is computed in one go (`text[line_start..index].<count>`): judge the counting expression
+            verdict, where = None, fb
+            for bb in bodies_:
+                defs_ = {}
+                for l_ in hir.nodes(bb["body"], "Let"):
+                    if l_["pat"].get("k") == "Binding" and l_.get("init") is not None:
+                        defs_[l_["pat"]["id"]] = l_["init"]
+                for st in hir.nodes(bb["body"], "Struct"):
+                    if not (st.get("adt") or "").endswith("lsp_types::Position"):
+                        continue
+                    for f in st["fields"]:
+                        if f["name"] != "character":
+                            continue
+                        roots, seen_ = [f["e"]], set()
+                        while roots:
+                            r_ = roots.pop()
+                            for x in hir.nodes(r_):
+                                pl_ = hir.path_local(x)
+                                if pl_ and pl_["id"] in defs_ and pl_["id"] not in seen_:
+                                    seen_.add(pl_["id"])
+                                    roots.append(defs_[pl_["id"]])
+                                if x.get("k") == "MethodCall":
+                                    if x["m"] in ("encode_utf16", "len_utf16"):
+                                        verdict = True if verdict is None else verdict
+                                    elif x["m"] in ("chars", "char_indices", "graphemes") or (x["m"] == "len" and "str" in c.tstr(hir.strip(x["recv"])["t"])):
+                                        verdict, where = False, x
+            out.add("document::" + fn, "column advances by UTF-16 code units", verdict, c.loc(where["sp"]),
+                    "the column of a Position is counted in `char`s / bytes: LSP columns count UTF-16 code units, so every position behind a "
+                    "character outside the BMP (or, for bytes, outside ASCII) in the same line is off", ("utf16",))
             continue
         for bb, n in incs_all:
             utf16 = any(m["m"] in ("len_utf16", "encode_utf16") for m in hir.nodes(n["r"], "MethodCall"))
